@@ -49,6 +49,14 @@ def cases(tier, seed):
         for pat in gen.all_patterns(L):
             yield {"k": "pat", "p": M.pat_str(pat)}
     rng = gen.sub_rng(seed, ID)
+    for z in (5, 9, 13, 17):
+        for few in (1, 2):
+            for many in ((10, 16) if tier == "quick" else (10, 14, 16, 20, 28)):
+                pat = [1] * few + [-1] * many + [0] * z
+                rng.shuffle(pat)
+                yield {"k": "seq", "s": gen.spell(rng, pat), "o": rng.randrange(1 << 30)}
+                blk = [0] * (z // 2) + [1] * few + [-1] * many + [0] * (z - z // 2)
+                yield {"k": "seq", "s": gen.spell(rng, blk), "o": rng.randrange(1 << 30)}
     for z in (18, 19, 25):
         for few in (1, 2):
             for many in ((5, 9, 14) if tier == "quick" else (5, 7, 9, 11, 14, 20, 30)):
